@@ -352,8 +352,8 @@ func (g *gen) c11RuneSweep() Op {
 // c11OddFormat assembles 1-3 directives from the grammar of odd pieces.
 func (g *gen) c11OddFormat() Op {
 	idx := []string{"", "", "", "[1]", "[2]", "[0]", "[00]", "[3]", "[9]", "[]", "[x]", "[-1]", "[99999999999999999999]", "[ 1]"}
-	wid := []string{"", "", "", "5", "0", "12", "*", "[1]*", "[0]*", "[2]*", "1000001", "2000", "-3"}
-	prec := []string{"", "", "", ".2", ".", ".0", ".*", ".[1]*", ".[0]*", ".1000001", ".[2]*"}
+	wid := []string{"", "", "", "5", "0", "12", "*", "[1]*", "[0]*", "[2]*", "1000001", "2000", "-3", "70", "100", "300"}
+	prec := []string{"", "", "", ".2", ".", ".0", ".*", ".[1]*", ".[0]*", ".1000001", ".[2]*", ".60", ".80", ".200", ".1"}
 	flags := []string{"", "", "", "+", "-", "#", " ", "0", "+-", "-0", "# +", "00"}
 	verbs := []string{"v", "d", "s", "x", "q", "c", "U", "T", "t", "e", "b", "o", "X", "!", "z", "é", "日", "", "w", "v", "d", "s"}
 	clean := func() string {
@@ -404,7 +404,20 @@ func (g *gen) c11OddFormat() Op {
 		case 2:
 			args = append(args, Val{K: "int", I: int64(g.r.Intn(3000))})
 		default:
-			args = append(args, Val{K: "f64", I: int64(g.r.Intn(100))})
+			switch g.r.Intn(6) {
+			case 0:
+				args = append(args, Val{K: "i64", I: -9223372036854775808})
+			case 1:
+				args = append(args, Val{K: "nan"})
+			case 2:
+				args = append(args, Val{K: "inf", I: int64(g.r.Intn(2)) - 1})
+			case 3:
+				args = append(args, Val{K: "str", S: Str(strings.Repeat("日本語テキストé", 1+g.r.Intn(9)))})
+			case 4:
+				args = append(args, Val{K: "bytes", S: Str(strings.Repeat("\x00\xffab", 1+g.r.Intn(30)))})
+			default:
+				args = append(args, Val{K: "f64", I: int64(g.r.Intn(100))})
+			}
 		}
 	}
 	return Op{K: "fmtsweep", F: Str(sb.String()), A: args, S: lits}
